@@ -253,6 +253,24 @@ func (r *DefaultRuleRenderer) ProtoRuleToIptablesRules(
 		}
 		ruleCopy.NotProtocol = nil
 	}
+	if ruleCopy.Icmp != nil || ruleCopy.NotIcmp != nil {
+		// The kernel only accepts an ICMP type/code match in a rule that matches on this IP
+		// version's ICMP protocol: "-p tcp -m icmp ..." / "meta l4proto tcp icmp type ..." make
+		// the whole iptables-restore / nft transaction fail.  If the rule's protocol match
+		// already excludes ICMP then a positive ICMP match can never be satisfied and a negated
+		// one (which the API allows with any protocol) is always satisfied.
+		icmpProto := &proto.Protocol{NumberOrName: &proto.Protocol_Number{Number: 1}}
+		if ipVersion == 6 {
+			icmpProto = &proto.Protocol{NumberOrName: &proto.Protocol_Number{Number: 58}}
+		}
+		if (ruleCopy.Protocol != nil && !protocolsEqual(ruleCopy.Protocol, icmpProto)) ||
+			(ruleCopy.NotProtocol != nil && protocolsEqual(ruleCopy.NotProtocol, icmpProto)) {
+			if ruleCopy.Icmp != nil {
+				return nil
+			}
+			ruleCopy.NotIcmp = nil
+		}
+	}
 	// There are a few areas where our data model doesn't fit with iptables, requiring us to
 	// render multiple iptables rules for one of our rules:
 	//
